@@ -437,12 +437,14 @@ def bi_map(interp, st, args, kwargs, node):
     if isinstance(items, (SymList, Grid)):
         n = M.sym_len(interp, st, items, node)
         k = z3.Int(V.fresh_name("k"))
-        x = M.sym_item(interp, st, items, k, node)
         st.guards.append(z3.And(k >= 0, k < to_z3(n)))
+        st.binders.append(k)
         try:
+            x = M.sym_item(interp, st, items, k, node)
             val = M.call_value(interp, st, f, [x], {}, node)
         finally:
             st.guards.pop()
+            st.binders.pop()
         leaves = V.leaves_of(val)
         arrs = [l if (l is None or isinstance(l, str)) else V.lam_array(k, l) for l in leaves]
         return SymList(val, arrs, n)
@@ -1393,6 +1395,9 @@ LIBFUNCS = {
     "itertools.chain.from_iterable": it_chain_from_iterable,
     "np.searchsorted": np_searchsorted,
     "tqdm.tqdm": identity1,
+    "muutils.json_serialize.json_serialize": identity1,
+    "zanj.loading.load_item_recursive": identity1,
+    "copy.deepcopy": identity1,
 }
 
 LIBCONSTS = {}
@@ -1518,7 +1523,7 @@ def m_list_pop(interp, st, base, base_node, args, kwargs, node):
     zj = to_z3(j)
     arrs = []
     for a in base.arrs:
-        if a is None or isinstance(a, str):
+        if a is None or isinstance(a, (str, bool, int, float)):
             arrs.append(a)
         else:
             # the shifted array is a fresh symbol defined by axioms that E-matching can use in both directions
